@@ -720,6 +720,8 @@ pub struct Stats {
     /// alternatives were skipped because of the deviation bound
     pub pruned: bool,
     pub wall_hit: bool,
+    /// the per-case execution cap was reached (the case is reported as not completed)
+    pub case_capped: bool,
     pub determinism_reruns: u64,
     /// the case turned out larger than `abort_after` executions and was given up (to be split)
     pub aborted_too_big: bool,
@@ -759,6 +761,7 @@ pub fn explore(
     rerun_first: u64,
     split: Option<Split>,
     abort_after: Option<u64>,
+    case_cap: Option<u64>,
     run: &mut dyn FnMut(&[ChoiceRec]) -> (ExecResult, u64),
     visit: &mut dyn FnMut(&ExecResult) -> Control,
 ) -> Result<Stats, ExploreError> {
@@ -828,6 +831,10 @@ pub fn explore(
                 stats.wall_hit = true;
                 return Ok(stats);
             }
+        }
+        if case_cap.is_some_and(|m| stats.schedules >= m) {
+            stats.case_capped = true;
+            return Ok(stats);
         }
         if abort_after.is_some_and(|m| stats.schedules >= m) {
             stats.aborted_too_big = true;
